@@ -93,6 +93,15 @@ CFG = {
         "exhaustive": {"quick": "all face lists of 1..3 oriented triangles over 4 vertices (14424 lists), each under fresh hash seeds, plus random meshes",
                        "thorough": "all face lists of 1..4 triangles over 4 vertices and 1..3 over 5 vertices, plus random meshes"},
     },
+    "C13": {
+        "cases": {"quick": 1600, "thorough": 80000},
+        "level_text": "Theorems: chained_indices (exact model of the loop) uses every input pair exactly once as a consecutive pair of exactly one chain, for every input and with a fuel bound proved sufficient; the edge-plane crossing point lies on the plane and strictly inside the edge when the ends are on opposite sides, and commutes with rigid motions; the crossing segment of a face has both ends on the plane and on edges of that face; cutting a triangle at edge points conserves its vector area. parry's plane-mesh intersection and split are external: the section of every case is compared with the face-crossing specification (segments, total length, loop count) on every run.",
+        "level_note": "Trusted: Lean kernel, Mathlib, hand-written model validated by the correspondence run; parry3d intersection_with_local_plane / local_split are external (compared with the specification per case); rounding not analysed.",
+        "files": ["src/geom3/mesh/queries.rs", "src/common/indices.rs", "src/geom3/plane3.rs"],
+        "tol": {"*": 1e-9, "section.mesh": 1e-8},
+        "extra_tier": {"thorough": ["--thorough"]},
+        "trusted": ["external: parry3d-f64 0.18 TriMesh::intersection_with_local_plane and local_split (outputs compared with the per-face crossing specification on every case)"],
+    },
     "C14": {
         "cases": {"quick": 480, "thorough": 48000},
         "level_text": "Refinement theorems: the TriangleFilter model (HashSet as list, any order) refines finite-set algebra for Add/Remove/Keep over a pure per-face predicate; the MeshNearCheck memo is transparent (memoised = un-memoised, for every evaluation order), with the pre-fix memo kept as an order-dependence witness; create_from_indices is faithful. Model tied to the Rust by chains of 1-6 steps repeated under fresh hash seeds.",
